@@ -299,13 +299,43 @@ def gen_case(rng, flavour):
         lines.append("sql 0 2")
         lines.append("info 2")
         lines += queries(2, full=(flavour == "forms"))
+        if rng.random() < 0.3:
+            # the SQLite form is read-only: insertion and re-saving are refused and leave every answer as it was
+            lines.append(f"ins 2 {rng.randrange(nsig)} fresh{rng.randint(0, 9)} -")
+            lines.append(rng.choice(["json 2 8", "sql 2 8"]))
+            lines += ["len 2", "hv 2", f"la 2 {rng.choice(pool)}", "recheck"]
         dbs.append(2)
     if flavour in ("summ", "db", "forms"):
         lines += gen_summ(rng, pool + absent, dbs, rng.randint(1, 4))
     if flavour == "down" or rng.random() < 0.3:
+        # every form has been queried above (lookup -> downsample -> lookup: memoised thresholds / cached views
+        # must not survive); then a SECOND downsample with queries in between, and the storage forms again
+        S3 = rng.choice([S2 * 2, S2 * 10, S2 * 7])
+        M3 = max_hash(S3)
+        extra = [h for h in (M3, M3 + 1, M3 - 1) if 0 <= h <= U64 and h not in pool]
         for d in dbs:
+            lines.append(f"hv {d}")
+            lines.append(f"la {d} {rng.choice(pool)}")
+            lines.append("recheck")
             lines.append(f"down {d} {S2}")
             lines += queries(d, full=True)
+        if rng.random() < 0.6:
+            for d in dbs:
+                lines.append(f"down {d} {S3}")
+                lines.append(f"hv {d}")
+                lines.append(f"sigs {d}")
+                for h in rng.sample(pool, min(len(pool), 4)) + extra[:1]:
+                    lines.append(f"la {d} {h}")
+                    lines.append(f"ids {d} {h}")
+            if rng.random() < 0.5:
+                lines.append(f"down {dbs[0]} {S3}")                 # same value again: nothing changes
+                lines.append(f"sigs {dbs[0]}")
+        if rng.random() < 0.5:
+            # a downsampled database written out and read back, in both forms
+            lines.append("json 0 5")
+            lines += ["info 5", "hv 5", "sigs 5", f"la 5 {rng.choice(pool)}"]
+            lines.append("sql 0 6")
+            lines += ["info 6", "hv 6", "sigs 6", f"la 6 {rng.choice(pool)}"]
         if rng.random() < 0.3:
             lines.append(f"down 0 {S_db}")                        # cannot go back: refused
         # the same signatures inserted directly into a database at S2 must give the same answers
@@ -316,6 +346,7 @@ def gen_case(rng, flavour):
         lines += queries(3, full=True)
         if flavour == "down":
             lines += gen_summ(rng, pool, dbs, 2)
+    lines.append("recheck")
     return lines
 
 
@@ -368,7 +399,7 @@ def gen_index_case(rng):
     si = rng.random() < 0.5
     kv = si and rng.random() < 0.5
     nh = rng.random() < 0.2
-    for flag, on in (("si", si), ("kv", kv), ("nh", nh), ("f", rng.random() < 0.15), ("rt", rng.random() < 0.25),
+    for flag, on in (("si", si), ("kv", kv), ("nh", nh), ("rt", rng.random() < 0.25),
                      ("fm", rng.random() < 0.15)):
         if on:
             opts.append(flag)
@@ -406,6 +437,7 @@ def gen_index_case(rng):
     for name in names:
         if name and rng.random() < 0.8:
             rows.append([ident_of(name)] + junk + lineage_cells())
+    conflict = False
     for _ in range(rng.randint(0, 3)):
         r = rng.random()
         if r < 0.3:
@@ -414,10 +446,14 @@ def gen_index_case(rng):
             rows.append(None)                                      # an empty line
         elif r < 0.6:
             rows.append([rng.choice(["", " "])] + junk + lineage_cells())          # blank identifier
-        elif r < 0.8 and len(rows) > 1 and rows[-1]:
-            dup = list(rows[-1])
-            if rng.random() < 0.5:
+        elif r < 0.8 and len(rows) > 1:
+            src = rng.choice([x for x in rows[(0 if nh else 1):] if x] or [rows[-1]])
+            if not src:
+                continue
+            dup = list(src)
+            if rng.random() < 0.6:
                 dup = dup[:1] + junk + lineage_cells()             # same identifier, maybe another lineage
+                conflict = conflict or dup != list(src)
             rows.append(dup)
         else:
             rows.append([f"only{rng.randint(0, 9)}"] + junk)       # identifier without any name
@@ -425,6 +461,10 @@ def gen_index_case(rng):
         body = rows[(0 if nh else 1):]
         rng.shuffle(body)
         rows = rows[:(0 if nh else 1)] + body
+    # --force: two rows giving one identifier different lineages are tolerated and the FIRST row stands
+    # (the rows were shuffled above, so either may come first)
+    if rng.random() < (0.6 if conflict else 0.12):
+        opts.append("f")
     csvtok = "/".join("!" if r is None else ";".join(tok(c) if c != "" else "" for c in r) for r in rows) or "-"
     order = list(range(nsig))
     rng.shuffle(order)
@@ -546,6 +586,11 @@ def gen_fn_case(rng):
             a = gen_lineage(rng, taxa, kind=rng.choice(["full", "partial", "gap"]))
             b = gen_lineage(rng, taxa, kind=rng.choice(["full", "partial"])) if rng.random() < 0.7 else gen_free_lineage(rng)
             lines.append(f"match {rng.randint(0, NRANKS - 1)} {show_lineage(a)} {show_lineage(b) if b else '-'}")
+        if rng.random() < 0.3:
+            # tax_utils.RankLineageInfo.find_lca (pairwise, rank by rank) on lineages along taxlist()
+            a = gen_lineage(rng, taxa, kind=rng.choice(["full", "partial", "padded"]))
+            b = gen_lineage(rng, taxa, kind=rng.choice(["full", "partial", "gap"]))
+            lines.append(f"rlca {show_lineage(a)} {show_lineage(b)}")
         if rng.random() < 0.25:
             lines.append("mklin " + ",".join(str(rng.randint(1, 9)) for _ in range(rng.randint(1, 10))))
         if rng.random() < 0.35:
@@ -676,6 +721,13 @@ def oracle(case, impl):
             bad.append((idx, sig, f"`{op}` -> `{obs[:160]}`: {msg}"))
 
         try:
+            if obs.startswith(("views-disagree", "twice-differs", "stale")):
+                kind = obs.split()[0]
+                flag("C18:" + {"views-disagree": "views-disagree", "twice-differs": "read-twice-differs",
+                               "stale": "history-stale"}[kind],
+                     "two ways of reading the same database disagree / an answer is not reproducible / an object handed "
+                     "out earlier changed: " + obs[:200])
+                continue
             if o == "sig":
                 if ok:
                     opts = dict(t.split("=", 1) for t in a[7:])
@@ -728,6 +780,12 @@ def oracle(case, impl):
                     db = _index_oracle(a, S)
                     if db is not None:
                         D[int(a[0])] = db
+                elif obs == "err KeyError":
+                    flag("C18:index-keyerror-second-signature-under-consumed-row",
+                         "`sourmash lca index` dies with an uncaught KeyError at record_remnants.remove(ident): a second "
+                         "signature reached a spreadsheet row that an earlier one already consumed (both identifiers "
+                         "normalise to the empty string, which insert() replaces by str(sig), so no duplicate is refused); "
+                         "neither a database nor one of the command's own refusals results")
             elif o == "json" or o == "sql":
                 d, e = int(a[0]), int(a[1])
                 if d in D and ok:
